@@ -3,209 +3,19 @@ package rules
 
 import (
 	"go/types"
-	"sort"
 
-	"golang.org/x/tools/go/ssa"
-
-	"olacheck/an"
 	"olacheck/core"
+	"olacheck/roles"
 )
 
-// Family is one store implementation: the concrete types implementing Store, Repo and BlobCreator
-// plus every struct type of the store package connected to them by field references.
-type Family struct {
-	Name   string // name of the Store-implementing type ("dir", "mem")
-	Store  *types.Named
-	Repo   *types.Named
-	Upload *types.Named
-	Types  map[string]bool // names of the store-package struct types in the family
-	// Mutating is true when a method of the family reaches a mutating filesystem call.
-	Mutating bool
-}
-
-// Roles are the resolved anchors of the rules.
-type Roles struct {
-	P        *core.Prog
-	RootPath string
-	StorePath, CachePath, TypesPath, ConfigPath, CmdPath string
-	IStore, IRepo, IBlobCreator                          *types.Named
-	Families                                             []*Family
-	Server                                               *types.Named
-	Router                                               *ssa.Function
-	Handlers                                             []*ssa.Function // functions of the root package taking an http.ResponseWriter
-	apiMethods                                           map[string]map[string]bool
-}
+type Roles = roles.Roles
+type Family = roles.Family
 
 func getRoles(c *core.Ctx) *Roles {
-	return core.Memo(c, "roles", func() *Roles { return resolveRoles(c) })
+	return core.Memo(c, "roles", func() *Roles { return roles.Resolve(c.P) })
 }
 
-func lookupNamed(pk *types.Package, name string) *types.Named {
-	if pk == nil {
-		return nil
-	}
-	o := pk.Scope().Lookup(name)
-	if o == nil {
-		return nil
-	}
-	n, _ := o.Type().(*types.Named)
-	return n
-}
-
-func resolveRoles(c *core.Ctx) *Roles {
-	p := c.P
-	r := &Roles{P: p, RootPath: p.Module, StorePath: p.Module + "/internal/store", CachePath: p.Module + "/internal/cache",
-		TypesPath: p.Module + "/types", ConfigPath: p.Module + "/config", CmdPath: p.Module + "/cmd/olareg",
-		apiMethods: map[string]map[string]bool{}}
-	sp := p.All[r.StorePath]
-	if sp == nil || p.All[r.RootPath] == nil || p.All[r.CachePath] == nil || p.All[r.TypesPath] == nil {
-		return r
-	}
-	// the store API: interfaces of the store package named Store, Repo, BlobCreator
-	r.IStore = lookupNamed(sp.Types, "Store")
-	r.IRepo = lookupNamed(sp.Types, "Repo")
-	r.IBlobCreator = lookupNamed(sp.Types, "BlobCreator")
-	for _, it := range []*types.Named{r.IStore, r.IRepo, r.IBlobCreator} {
-		if it == nil {
-			continue
-		}
-		if iface, ok := it.Underlying().(*types.Interface); ok {
-			m := map[string]bool{}
-			for i := 0; i < iface.NumMethods(); i++ {
-				m[iface.Method(i).Name()] = true
-			}
-			r.apiMethods[it.Obj().Name()] = m
-		}
-	}
-	// families: connected components of the store package's struct types under field references
-	scope := sp.Types.Scope()
-	var structs []*types.Named
-	for _, name := range scope.Names() {
-		if tn, ok := scope.Lookup(name).(*types.TypeName); ok {
-			if n, ok := tn.Type().(*types.Named); ok {
-				if _, ok := n.Underlying().(*types.Struct); ok {
-					structs = append(structs, n)
-				}
-			}
-		}
-	}
-	parent := map[string]string{}
-	var find func(s string) string
-	find = func(s string) string {
-		if parent[s] == "" || parent[s] == s {
-			parent[s] = s
-			return s
-		}
-		parent[s] = find(parent[s])
-		return parent[s]
-	}
-	for _, n := range structs {
-		find(n.Obj().Name())
-	}
-	var refs func(t types.Type, from string, depth int)
-	refs = func(t types.Type, from string, depth int) {
-		if depth > 8 {
-			return
-		}
-		switch x := t.(type) {
-		case *types.Pointer:
-			refs(x.Elem(), from, depth+1)
-		case *types.Slice:
-			refs(x.Elem(), from, depth+1)
-		case *types.Array:
-			refs(x.Elem(), from, depth+1)
-		case *types.Map:
-			refs(x.Key(), from, depth+1)
-			refs(x.Elem(), from, depth+1)
-		case *types.Named:
-			if x.Obj().Pkg() != nil && x.Obj().Pkg().Path() == r.StorePath {
-				if _, ok := x.Underlying().(*types.Struct); ok {
-					a, b := find(from), find(x.Obj().Name())
-					if a != b {
-						parent[a] = b
-					}
-				}
-			}
-			if ta := x.TypeArgs(); ta != nil {
-				for i := 0; i < ta.Len(); i++ {
-					refs(ta.At(i), from, depth+1)
-				}
-			}
-		}
-	}
-	for _, n := range structs {
-		st := n.Underlying().(*types.Struct)
-		for i := 0; i < st.NumFields(); i++ {
-			refs(st.Field(i).Type(), n.Obj().Name(), 0)
-		}
-	}
-	impl := func(n *types.Named, it *types.Named) bool {
-		if it == nil {
-			return false
-		}
-		iface, ok := it.Underlying().(*types.Interface)
-		if !ok {
-			return false
-		}
-		return types.Implements(types.NewPointer(n), iface) || types.Implements(n, iface)
-	}
-	fams := map[string]*Family{}
-	for _, n := range structs {
-		root := find(n.Obj().Name())
-		f := fams[root]
-		if f == nil {
-			f = &Family{Types: map[string]bool{}}
-			fams[root] = f
-		}
-		f.Types[n.Obj().Name()] = true
-		switch {
-		case impl(n, r.IStore):
-			f.Store = n
-			f.Name = n.Obj().Name()
-		case impl(n, r.IRepo):
-			f.Repo = n
-		case impl(n, r.IBlobCreator):
-			f.Upload = n
-		}
-	}
-	for _, f := range fams {
-		if f.Store != nil && f.Repo != nil && f.Upload != nil {
-			r.Families = append(r.Families, f)
-		}
-	}
-	sort.Slice(r.Families, func(i, j int) bool { return r.Families[i].Name < r.Families[j].Name })
-	// server, router, handlers
-	rp := p.All[r.RootPath]
-	r.Server = lookupNamed(rp.Types, "Server")
-	for _, fn := range p.Funcs("") {
-		if fn.Signature.Recv() != nil && fn.Name() == "ServeHTTP" && fn.Parent() == nil {
-			if n := an.NamedOf(fn.Signature.Recv().Type()); n != nil && n == r.Server {
-				r.Router = fn
-			}
-		}
-		if hasRespWriterParam(fn) {
-			r.Handlers = append(r.Handlers, fn)
-		}
-	}
-	return r
-}
-
-func hasRespWriterParam(fn *ssa.Function) bool {
-	for _, pa := range fn.Params {
-		if isNamed(pa.Type(), "net/http", "ResponseWriter") {
-			return true
-		}
-	}
-	return false
-}
-
-func isNamed(t types.Type, pkg, name string) bool {
-	n, ok := t.(*types.Named)
-	if !ok || n.Obj().Pkg() == nil {
-		return false
-	}
-	return n.Obj().Pkg().Path() == pkg && n.Obj().Name() == name
-}
+func lookupNamed(pk *types.Package, name string) *types.Named { return roles.LookupNamed(pk, name) }
 
 // requireRoles fails closed when the anchors are missing.
 func requireRoles(c *core.Ctx) *Roles {
@@ -216,132 +26,4 @@ func requireRoles(c *core.Ctx) *Roles {
 		return nil
 	}
 	return r
-}
-
-// FamilyOfType returns the family a store-package type belongs to.
-func (r *Roles) FamilyOfType(t types.Type) *Family {
-	n := an.NamedOf(t)
-	if n == nil || n.Obj().Pkg() == nil || n.Obj().Pkg().Path() != r.StorePath {
-		return nil
-	}
-	for _, f := range r.Families {
-		if f.Types[n.Obj().Name()] {
-			return f
-		}
-	}
-	return nil
-}
-
-// FamilyOfFunc returns the family of a method (or closure nested in a method / constructor) of the store package.
-func (r *Roles) FamilyOfFunc(fn *ssa.Function) *Family {
-	for f := fn; f != nil; f = f.Parent() {
-		if f.Signature.Recv() != nil {
-			if fam := r.FamilyOfType(f.Signature.Recv().Type()); fam != nil {
-				return fam
-			}
-		}
-		// constructors: a function of the store package returning Store whose body allocates the family's store type
-		if f.Parent() == nil && core.FuncPkgPath(f) == r.StorePath && f.Signature.Recv() == nil {
-			var fam *Family
-			an.Instrs(f, func(in ssa.Instruction) {
-				if a, ok := in.(*ssa.Alloc); ok {
-					if ff := r.FamilyOfType(a.Type()); ff != nil && ff.Store != nil && an.NamedOf(a.Type()) == ff.Store {
-						fam = ff
-					}
-				}
-			})
-			if fam != nil {
-				return fam
-			}
-		}
-	}
-	return nil
-}
-
-// API classifies a call as a call of the store API: interface name and method name.
-// It recognises interface invocations and static calls of implementing methods.
-func (r *Roles) API(call ssa.CallInstruction) (iface, method string, ok bool) {
-	cc := call.Common()
-	if cc.IsInvoke() {
-		n := an.NamedOf(cc.Value.Type())
-		if n == nil {
-			return "", "", false
-		}
-		for _, it := range []*types.Named{r.IStore, r.IRepo, r.IBlobCreator} {
-			if it != nil && n == it {
-				return it.Obj().Name(), cc.Method.Name(), true
-			}
-		}
-		return "", "", false
-	}
-	fn := cc.StaticCallee()
-	if fn == nil || fn.Signature.Recv() == nil {
-		return "", "", false
-	}
-	fam := r.FamilyOfType(fn.Signature.Recv().Type())
-	if fam == nil {
-		return "", "", false
-	}
-	n := an.NamedOf(fn.Signature.Recv().Type())
-	var it *types.Named
-	switch n {
-	case fam.Store:
-		it = r.IStore
-	case fam.Repo:
-		it = r.IRepo
-	case fam.Upload:
-		it = r.IBlobCreator
-	}
-	if it == nil || !r.apiMethods[it.Obj().Name()][fn.Name()] {
-		return "", "", false
-	}
-	return it.Obj().Name(), fn.Name(), true
-}
-
-// IsAPI reports whether call is iface.method of the store API.
-func (r *Roles) IsAPI(call ssa.CallInstruction, iface string, methods ...string) bool {
-	i, m, ok := r.API(call)
-	if !ok || i != iface {
-		return false
-	}
-	for _, x := range methods {
-		if x == m {
-			return true
-		}
-	}
-	return false
-}
-
-// IsSessionType reports whether t is the BlobCreator interface or one of its implementations.
-func (r *Roles) IsSessionType(t types.Type) bool {
-	n := an.NamedOf(t)
-	if n == nil {
-		return false
-	}
-	if n == r.IBlobCreator {
-		return true
-	}
-	for _, f := range r.Families {
-		if n == f.Upload {
-			return true
-		}
-	}
-	return false
-}
-
-// IsRepoType reports whether t is the Repo interface or one of its implementations.
-func (r *Roles) IsRepoType(t types.Type) bool {
-	n := an.NamedOf(t)
-	if n == nil {
-		return false
-	}
-	if n == r.IRepo {
-		return true
-	}
-	for _, f := range r.Families {
-		if n == f.Repo {
-			return true
-		}
-	}
-	return false
 }
